@@ -88,6 +88,26 @@ theorem C11_order_and_grouping_independent {cfg : Config} {h : Heap} (hi : Inv c
 theorem C11_reachable_admissible {addr : Ref → Int} (hinj : Injective addr) (cfg : Config) (reqs : List Req) :
     Inv cfg (run1 addr cfg {} reqs).1.heap := reach1_inv hinj cfg reqs
 
+/-- **In every Lexicon of a process.**  After any process history (requests addressed to any number of Lexicons in any
+    interleaving, Lexicons destroyed and replaced by fresh ones at any time — `procRun`), every `Qualified` node that
+    Lexicon `k` holds has a non-empty qualifier set and a live, unqualified main variant. -/
+theorem C11_main_variant_unqualified_in_process {addr : Ref → Int} (hinj : Injective addr) (cfg : Config) (evs : List Ev)
+    (k : Nat) (r : Ref) (q : Nat) (m : Ref)
+    (hq : qualView ((procRun addr cfg Proc.fresh evs).1 k).heap r = some (q, m)) :
+    q ≠ 0 ∧ m.valid ((procRun addr cfg Proc.fresh evs).1 k).heap = true ∧
+      qualView ((procRun addr cfg Proc.fresh evs).1 k).heap m = none := by
+  have hst := procRun_state addr cfg evs Proc.fresh (fun _ => []) (by intro i; simp [Proc.fresh, run1, runWith]) k
+  rw [hst] at hq ⊢
+  exact C11_main_variant_unqualified hinj cfg _ r q m hq
+
+/-- … and the state of Lexicon `k` is an admissible starting point of `C11_successive_qualification` /
+    `C11_order_and_grouping_independent`: what other Lexicons were asked in between, and what a predecessor at the same
+    place had been asked, does not matter. -/
+theorem C11_process_state_admissible {addr : Ref → Int} (hinj : Injective addr) (cfg : Config) (evs : List Ev) (k : Nat) :
+    Inv cfg ((procRun addr cfg Proc.fresh evs).1 k).heap := by
+  rw [procRun_state addr cfg evs Proc.fresh (fun _ => []) (by intro i; simp [Proc.fresh, run1, runWith]) k]
+  exact reach1_inv hinj cfg _
+
 /-! ### Non-vacuity -/
 
 def exCfg11 : Config := { words := [[105, 110, 116]], builtinWords := [0] }
